@@ -16,8 +16,8 @@ def _pi(args):
 def run(tier, seed, jobs):
     maxlen = 5 if tier == "quick" else 7
     inits = fam.initial_states(maxlen)
-    import random
-    random.Random(seed).shuffle(inits)
+    # (the search is exhaustive to closure; the partition over workers is fixed so that the
+    # transition count, which includes work duplicated between workers, is reproducible)
     nparts = jobs * 4
     parts = [(inits[i::nparts], maxlen + 2) for i in range(nparts)]
     viol = []
